@@ -35,6 +35,13 @@ CHECKS = {
         "text": "Hostile inputs (directive templates x extreme integer spellings, hostile names, truncated/recursive/huge specials, import graphs with cycles, repository sources, seeded mutants, random characters, generators for oscillating branches / zp-abs flips / mutually dependent segments; real-file CLI slice with invalid UTF-8, directories and symlinks in place of files, broken mos.toml) are run through parse, Display, build-mode and analysis-mode codegen, format, listing, bank merge and symbol export. Any panic, abort (stack overflow, allocation failure), located diagnostic outside the project, or a pass loop still running at 1500 passes with a periodic state sequence is a violation.",
         "note": "Watchdog timeouts (e.g. `.loop 2^63 { nop }`, which iterates in pass 0 without a segment) are inconclusive, never violations, and are listed in the evidence as hang suspects. Release semantics. Unreadable files emulated (sandbox runs as root).",
     },
+    "C07": {
+        "engine": "probe",
+        "category": "exploration",
+        "technique": "runtime monitoring: metamorphic oracle bytes(P) == bytes(expand(P)) with expand() implemented as a rewrite on abstract programs; expansions are additionally certificate-checked",
+        "text": "For seeded ProgGen programs 1-3 construct kinds (loop, if, macro, const, brace scope, import) are expanded by hand exactly as the property words it (with deep copies, alpha-renaming and re-spelling of every reference) and both texts are assembled by the real library; segment bytes must be identical, and every fourth expansion must also pass the certificate checker, tying the pair to absolute semantics. Nesting pairs covered are reported. One program in eight uses -/+ of brace scopes inside loop bodies, the trigger of the known loop-scope finding; deterministic witnesses of the known findings are re-checked on every run.",
+        "note": "An expansion that the assembler rejects only because its passes do not settle ('unknown identifier' for a symbol that is defined) is counted, not judged. Macro bodies expanded into loop bodies are composed with the loop expansion (labels cannot live in loop bodies, see known findings).",
+    },
     "C08": {
         "engine": "probe",
         "category": "exploration",
